@@ -14,7 +14,10 @@ D = decimal.Decimal
 
 # characters for string values: markup, quotes, non-ASCII, entity spellings are all in the pool
 ALPHA = string.ascii_letters + string.digits
-SPICE = ["&", "<", ">", '"', "'", "é", "ß", "€", "中", "&amp;", "&lt;", "&#38;", ";", "]]>", "/", "=", "%", " x"]
+# (a text given to a String element is unescaped once by convert: "&amp;lt;" makes the *instance* hold the four
+#  characters "&lt;", which is the interesting case for anything that escapes / unescapes on the way out and in)
+SPICE = ["&", "<", ">", '"', "'", "\u00e9", "\u00df", "\u20ac", "\u4e2d", "&amp;", "&lt;", "&#38;", ";", "]]>", "/", "=", "%", " x"]
+SPICE_DEEP = ["&amp;amp;", "&amp;lt;", "&amp;gt;", "&amp;nbsp;", "&amp;apos;", "&amp;amp;amp;"]
 
 
 class Gen:
@@ -49,7 +52,7 @@ class Gen:
         out = []
         while len("".join(out)) < n:
             if self.spicy and not plain and rng.random() < 0.15:
-                out.append(rng.choice(SPICE))
+                out.append(rng.choice(SPICE + SPICE_DEEP if self.deep_entities else SPICE))
             elif rng.random() < 0.08 and out:
                 out.append(" ")
             else:
@@ -85,6 +88,11 @@ class Gen:
         sign = 1 if rng.random() < 0.3 else 0
         digits = tuple(int(ch) for ch in str(c))
         return D((sign, digits, e))
+
+    #: also draw doubly-escaped entity spellings, so that instances hold literal "&amp;", "&lt;" … texts; only for
+    #: checks that go through the serializer (the bare converter pair is not an inverse pair on such texts: recorded
+    #: finding C10 string-unconvert-no-escape)
+    deep_entities = False
 
     #: probability that a date-time / time value carries a non-UTC fixed offset (whole and fractional hours,
     #: both signs, named or not); 0 keeps every value in UTC
